@@ -252,14 +252,28 @@ pub fn gen_tx(r: &mut Rng, focus: Focus) -> tir::Tx {
     };
     tir::Tx {
         fees: if focus == Focus::C02 { int_expr(r, focus, depth.min(1)) } else { E::Number(170_000 + r.below(300_000) as i128) },
-        references: if r.chance(1, 5) { vec![E::UtxoRefs(vec![UtxoRef { txid: txid_pool(50), index: 1 }])] } else { vec![] },
+        // 0-4 reference blocks, each with one or two references (distinct txids; some repeated across blocks)
+        references: if r.chance(1, 3) {
+            (0..1 + r.below(4))
+                .map(|k| {
+                    let n = 1 + r.below(2);
+                    E::UtxoRefs((0..n).map(|j| UtxoRef { txid: txid_pool(50 + (k * 2 + j) % 5), index: (k + j) as u32 % 3 }).collect())
+                })
+                .collect()
+        } else {
+            vec![]
+        },
         inputs,
         outputs,
         validity,
         mints,
         burns,
         adhoc,
-        collateral: if r.chance(1, 4) { vec![tir::Collateral { utxos: E::UtxoRefs(vec![UtxoRef { txid: txid_pool(60), index: 0 }]) }] } else { vec![] },
+        collateral: if r.chance(1, 4) {
+            (0..1 + r.below(2)).map(|k| tir::Collateral { utxos: E::UtxoRefs(vec![UtxoRef { txid: txid_pool(60 + k), index: k as u32 }]) }).collect()
+        } else {
+            vec![]
+        },
         signers: if r.chance(1, 5) {
             Some(tir::Signers { signers: vec![if r.chance(1, 2) { E::Bytes(vec![9; if focus == Focus::C14 && r.chance(1, 3) { 20 } else { 28 }]) } else { E::Address(addr_bytes(0xA1)) }] })
         } else {
